@@ -66,7 +66,7 @@ def run_shard(tier, seed, idx, n, res, tmp, judge=None, prop=None):
     prop = prop or PROPERTY
     from stone.backends.python_rsrc import stone_serializers as ss, stone_validators as bv
     b = budget(tier)
-    for ci in range(idx, b['specs'], n):
+    for ci in common.case_range(idx, b['specs'], n, res):
         try:
             case = rtwork.SpecCase(prop, seed, ci, tmp, rtwork.rt_profile())
         except Exception as e:
